@@ -1767,14 +1767,24 @@ struct Driver {
     std::string d = w.sc.LogDir();
     if (w.k.Exists(d + ".ninja_log")) files.push_back(d + ".ninja_log");
     if (w.k.Exists(d + ".ninja_deps")) { files.push_back(d + ".ninja_deps"); files.push_back(d + ".ninja_deps"); }
-    for (const Stmt& s : w.sc.stmts) if (s.alive && !s.depfile.empty() && w.k.Exists(s.depfile)) files.push_back(s.depfile);
+    std::set<std::string> depfiles;
+    for (const Stmt& s : w.sc.stmts) if (s.alive && !s.depfile.empty() && w.k.Exists(s.depfile)) { files.push_back(s.depfile); files.push_back(s.depfile); depfiles.insert(s.depfile); }
     for (auto& dd : w.sc.dyndeps) if (w.k.Exists(dd.path)) files.push_back(dd.path);
     files.push_back("build.ninja");
     std::string f = files[H((uint32_t)files.size())];
     std::string b, orig;
     w.k.ReadFile(f, &b);
     orig = b;
-    w.k.WriteFile(f, DamageBytes(b), true);
+    std::string damaged = DamageBytes(b);
+    // a depfile that lost exactly its beginning: what is left starts at the colon (no target at all),
+    // or is a second rule line for a target that has none of its own
+    if (depfiles.count(f) && b.find(':') != std::string::npos) {
+      uint32_t dk = Hash64(b, (uint64_t)inv_index * 13 + 5) % 4;
+      if (dk == 0) damaged = b.substr(b.find(':'));
+      else if (dk == 1) damaged = b.substr(b.find(':') + 1);
+      if (dk <= 1) rr.stats.n["depfile_lost_target"]++;
+    }
+    w.k.WriteFile(f, damaged, true);
     Note("damage " + f);
     rr.stats.faults["storage_damage"]++;
     rr.stats.nontrivial["C13"] = true;
